@@ -202,6 +202,14 @@ def run(case, out):
                             if bool(c) != (w in want):
                                 out.fail("cfg.intersection:contains-of-result", word=list(w), want=w in want)
                                 break
+        # the result as operand: intersecting it again with the same regular language changes nothing
+        if res is not FAILED and isinstance(res, CFG) and len(res.productions) <= 60:
+            again = out.call("cfg.intersection.intersection", res.intersection, _right(case)[0])
+            if again is not FAILED and isinstance(again, CFG):
+                got = GC.extract(again).words_upto(N)
+                if got != want:
+                    d = sorted(got ^ want, key=lambda w: (len(w), w))
+                    out.fail("cfg.intersection.intersection:language", word=list(d[0]), want=d[0] in want)
         # `&` operator form
         res2 = out.call("cfg.and", lambda: GC.build(g) & _right(case)[0])
         if res2 is not FAILED and isinstance(res2, CFG):
